@@ -118,17 +118,40 @@ def constructors_of(crate, path):
     return out
 
 
+def callers_of(crate, key):
+    """bodies of this crate with a call that resolves to `key` (or to its definition)"""
+    d = crate.bodies[key]["def"]
+    out = set()
+    for k2, b in crate.bodies.items():
+        if b["krate"] != crate.name:
+            continue
+        for bl in b["blocks"]:
+            t = bl["t"]
+            if t[0] == "call" and (t[1].get("res") == key or t[1].get("rdef") == d or t[1].get("def") == d):
+                out.add(k2)
+    return out
+
+
 def check_construction(chk, crate, g, allowed_fns):
     cons = constructors_of(crate, g.path)
-    bad = []
-    for key, sp in cons:
+    pub = {f["path"]: f["pub"] for f in crate.facts["fns"]}
+
+    def acceptable(key, depth=0):
         b = crate.bodies[key]
         fn = b["def"].split("::")[-1]
         if fn in allowed_fns:
-            continue
+            return True
         if "_serde" in key or "Deserialize" in key or "__Visitor" in key:
-            continue
-        bad.append("%s at %s" % (key, sp))
+            return True
+        # a private helper (or a closure) is as good as its callers: all of them must be seeding functions themselves
+        if depth < 4 and (b["kind"] == "Closure" or pub.get(b["def"]) is False):
+            cs = callers_of(crate, key) if b["kind"] != "Closure" else {k for k in crate.bodies if key.startswith(k + "::{closure")}
+            return bool(cs) and all(acceptable(c, depth + 1) for c in cs if c != key)
+        return False
+    bad = []
+    for key, sp in cons:
+        if not acceptable(key):
+            bad.append("%s at %s" % (key, sp))
     chk.ob("R6", "%s|constructed only by from_seed / Clone / Deserialize" % g.ident, not bad and len(cons) >= 1,
            "other construction sites: %s" % bad if bad else "%d construction site(s)" % len(cons), nontrivial=False)
     pubf = [f["name"] for v in g.adt["variants"] for f in v["fields"] if f["pub"]]
